@@ -17,7 +17,8 @@
 From Coq Require Import List ZArith Bool.
 From ApiFu Require Import Base.Sexp Cost.CostModel Cost.CostSpec Cost.CostProofs.
 From ApiFu Require Val.Values Val.CoerceModel Val.CoerceSpec Val.CoerceProofs Relay.RelayModel.
-From ApiFu Require Import Cost.CostArgs Cost.CostArgsProofs Cost.CostFragments Cost.CostRelay Cost.CostTrace Cost.CostTraceProofs Cost.CostC04Usage Cost.CostC04.
+From ApiFu Require Import Cost.CostArgs Cost.CostArgsProofs Cost.CostFragments Cost.CostRelay Cost.CostTrace Cost.CostTraceProofs Cost.CostC04Usage Cost.CostC04 Cost.CostProj Cost.CostC04Proj.
+From ApiFu Require Val.BridgeC04Full.
 From ApiFu Require Vld.ProofsTypeInfoValues.
 From ApiFu Require Vld.Ast Vld.ValidatorModel Vld.Hyps Vld.ProofsCommon Val.BridgeC04 Val.BridgeC04Proofs.
 Import ListNotations.
@@ -555,6 +556,60 @@ Theorem C14_c04_nodes_cost_calls_all_partial :
         (map (fun p => match p with (k, l) => (k, CoerceSpec.abs_lit vv l) end) (af_args (c_field c))) = Some (c_args c).
 Proof. exact c04_nodes_cost_calls_all. Qed.
 
+
+(** * Round 6: behind C04's WHOLE ValidateDocument model, with C05's complete bridge
+    (C05_C04_accepts_implies_static_ok_r: every environment, DateTime / LongInt included, no leaf
+    hypothesis).
+
+    [projection_accepted C E dt defs f]: C04's ValidateDocument model ([validate_model_memo repaired]:
+    NewTypeInfo, the eight rule groups, the primary / secondary filter) accepts the single-field
+    PROJECTION of the request at the field selection [f] — the operation that declares exactly the
+    variables the argument literals of [f] mention and selects [f] alone (C05's [tr_request_doc] over
+    [tr_request_schema_r]).  If every projection of a multi-field request is accepted (and
+    validateCoercion accepts every variable default, variable names are distinct — what
+    [vardefs_loop] reports otherwise), every call a cost function receives during the walk of the
+    WHOLE request — fields at any depth, through fragments, under any multiplier — sees conforming,
+    reference-coerced arguments.  No hypothesis about C04's internals, about leaves or about the
+    environment beyond closedness is left.
+    STILL NOT PROVED — the one remaining gap, now a statement about C04's model alone (LOCALITY):
+    [validate_model repaired pi S F D = Done []] on the whole multi-field document implies that each
+    single-field projection is accepted (validateArguments / validateValues / validateVariables
+    judge a field selection's arguments by that selection, its definition and the variable
+    definitions alone), together with the translation of a multi-field document over the real
+    schema into these projections.  C05's membership argument ([args_rule_node], [vals_args],
+    [body_flat] in Val/BridgeC04Full.v) computes NewTypeInfo on ONE fixed document shape; doing it for
+    a recursive document is C04-side work of the size of that file.  The check evaluates
+    [projection_accepted] on the field selections of validated cases. *)
+Theorem C14_usage_ok_only_mentioned_variables : forall E defs (p : Values.vardef -> bool) l e ld,
+  (forall n, In n (CoerceModel.lit_vars l) -> forall d, bytes_eqb n (Values.vd_name d) = true -> p d = true) ->
+  CoerceModel.usage_ok CoerceModel.all_fixed E (filter p defs) l e ld = CoerceModel.usage_ok CoerceModel.all_fixed E defs l e ld.
+Proof. exact usage_ok_filter. Qed.
+
+Theorem C14_projections_cost_calls_partial :
+  forall (C : Type) E dt (ops : list (aop C)) frs opname raw o skip_zero fuel dc ctx0 max,
+  Values.ahas BridgeC04.n_Query E = false -> Values.ahas BridgeC04.n_Res E = false ->
+  CoerceSpec.env_closed E = true -> CoerceSpec.env_ok E = true ->
+  chosen_op C ops opname = Some o ->
+  (forall f, in_request C o frs f -> projection_accepted C E dt (ao_vardefs o) f = true) ->
+  (forall def dflt, In def (ao_vardefs o) -> Values.vd_default def = Some dflt ->
+                    CoerceSpec.sty_closed E (Values.vd_type def) = true /\
+                    BridgeC04.c04_accepts_r dt E dflt (Values.vd_type def) true = true) ->
+  CoerceModel.has_dup (map Values.vd_name (ao_vardefs o)) = false ->
+  (forall def, In def (ao_vardefs o) -> BridgeC04Full.leaf_name (Values.vd_type def) <> BridgeC04.n_Res) ->
+  (forall f, in_request C o frs f ->
+             (forall ad, In ad (af_argdefs f) -> CoerceSpec.sty_closed E (Values.in_type (snd ad)) = true) /\
+             CoerceModel.has_dup (map fst (af_argdefs f)) = false /\
+             forall ad, In ad (af_argdefs f) -> CoerceSpec.default_ok E (snd ad) = true) ->
+  (forall def dflt, In def (ao_vardefs o) -> Values.vd_default def = Some dflt -> CoerceModel.lit_vars dflt = []) ->
+  (forall p, In p raw -> CoerceSpec.jval_ok (snd p) = true) ->
+  forall c, In c (snd (validate_cost_trace C E dt skip_zero fuel dc ctx0 ops frs opname raw max)) ->
+    CoerceSpec.args_conform_b E (af_argdefs (c_field c)) (c_args c) = true /\
+    exists vv,
+      CoerceSpec.ref_variable_values E dt (ao_vardefs o) raw = Some vv /\
+      CoerceSpec.ref_argument_values E dt (af_argdefs (c_field c))
+        (map (fun p => match p with (k, l) => (k, CoerceSpec.abs_lit vv l) end) (af_args (c_field c))) = Some (c_args c).
+Proof. exact projections_cost_calls. Qed.
+
 Print Assumptions C14_checked_mul_spec.
 Print Assumptions C14_checked_add_spec.
 Print Assumptions C14_select_op_spec.
@@ -594,3 +649,5 @@ Print Assumptions C14_accepted_document_cost_calls_partial.
 Print Assumptions C14_c04_nodes_cost_calls_partial.
 Print Assumptions C14_usage_from_c04.
 Print Assumptions C14_c04_nodes_cost_calls_all_partial.
+Print Assumptions C14_usage_ok_only_mentioned_variables.
+Print Assumptions C14_projections_cost_calls_partial.
